@@ -854,4 +854,74 @@ func (*ArrayListOfValue).SetAtVal
   props C24 C01
   requires l != nil && 0 <= index && index < len(*l)
   ensures elem(*l, index) == val
+
+// the mathematical value of any integer-kinded Value (inline kinds and BigInt)
+spec fn anyIntVal(v Value) int = ite(v.flag == SMALL_INT_FLAG, wrapS64(v.data), ite(v.flag == INT64_FLAG, wrapS64(v.data), ite(v.flag == INT32_FLAG, wrapS32(v.data), ite(v.flag == INT16_FLAG, wrapS16(v.data), ite(v.flag == INT8_FLAG, wrapS8(v.data), ite(v.flag == UINT8_FLAG, wrapU8(v.data), ite(v.flag == UINT16_FLAG, wrapU16(v.data), ite(v.flag == UINT32_FLAG, wrapU32(v.data), ite(isBig(v), bigval(v.ptr), v.data)))))))))
+spec fn isInlineIntKind(v Value) bool = v.flag == SMALL_INT_FLAG || v.flag == INT64_FLAG || v.flag == INT32_FLAG || v.flag == INT16_FLAG || v.flag == INT8_FLAG || v.flag == UINT8_FLAG || v.flag == UINT16_FLAG || v.flag == UINT32_FLAG || v.flag == UINT64_FLAG || v.flag == UINT_FLAG
+
+// well-formed reference values carry a non-nil pointer and a dynamic type
+spec fn wfv(v Value) bool = v.flag == REFERENCE_FLAG ==> v.ptr != nil && v.data != 0
+
+// rendering and class lookup of a value (used for error messages) have no effect on tracked state
+func (Value).Inspect
+  trusted
+  assigns nothing
+
+func (Value).Class
+  trusted
+  assigns nothing
+
+// an index value is converted to a Go int only if the int denotes the same number
+func ToGoInt
+  props C24 C20
+  requires wfv(val)
+  assigns nothing
+  ensures exact: ret1 && (isInlineIntKind(val) || isBig(val)) ==> ret0 == anyIntVal(val)
+  ensures accepts: (isInlineIntKind(val) || isBig(val)) && -9223372036854775808 <= anyIntVal(val) && anyIntVal(val) <= 9223372036854775807 ==> ret1
+  ensures toobig: (isBig(val) || isInlineIntKind(val)) && !fitsSmall(anyIntVal(val)) ==> !ret1 && ret0 == -1
+
+func (*ArrayListOfValue).Subscript
+  props C24
+  requires l != nil && wfv(key)
+  assigns nothing
+  ensures ok: key.flag == SMALL_INT_FLAG && inRange(wrapS64(key.data), len(*l)) ==> ret1 == Undefined && ret0 == elem(*l, normIdx(wrapS64(key.data), len(*l)))
+  ensures err: key.flag == SMALL_INT_FLAG && !inRange(wrapS64(key.data), len(*l)) ==> ret0 == Undefined && isErr(ret1, IndexErrorClass)
+  ensures big: isBig(key) && !fitsSmall(bigval(key.ptr)) ==> ret0 == Undefined && isErr(ret1, IndexErrorClass)
+
+func (*ArrayListOfValue).SubscriptSet
+  props C24
+  requires l != nil && wfv(key)
+  ensures hdr: *l == old(*l)
+  ensures ok: key.flag == SMALL_INT_FLAG && inRange(wrapS64(key.data), len(*l)) ==> ret == Undefined && elem(*l, normIdx(wrapS64(key.data), len(*l))) == val
+  ensures others: key.flag == SMALL_INT_FLAG ==> forall k int :: 0 <= k && k < len(*l) && !(inRange(wrapS64(key.data), len(*l)) && k == normIdx(wrapS64(key.data), len(*l))) ==> elem(*l, k) == old(elem(*l, k))
+  ensures err: key.flag == SMALL_INT_FLAG && !inRange(wrapS64(key.data), len(*l)) ==> isErr(ret, IndexErrorClass)
+
+func (*ArrayListOfValue).Expand
+  props C24
+  requires l != nil && newElements <= 72057594037927936
+  ensures len: len(*l) == old(len(*l)) + ite(newElements < 1, 0, newElements)
+  ensures prefix: forall k int :: 0 <= k && k < old(len(*l)) ==> elem(*l, k) == old(elem(*l, k))
+  ensures fill: forall k int :: old(len(*l)) <= k && k < len(*l) ==> elem(*l, k) == Nil
+  loop 1
+    invariant 0 <= i && i <= newElements
+    invariant len(newCollection) == old(len(*l)) + i && cap(newCollection) >= old(len(*l)) + newElements
+    invariant forall k int :: 0 <= k && k < old(len(*l)) ==> elem(newCollection, k) == old(elem(*l, k))
+    invariant forall k int :: old(len(*l)) <= k && k < len(newCollection) ==> elem(newCollection, k) == Nil
+    invariant *l == old(*l)
+    decreases newElements - i
+
+func (*ArrayListOfValue).AppendAtInt
+  props C24
+  requires l != nil && index < 72057594037927936
+  ensures neg: index < 0 ==> ret != Undefined && *l == old(*l)
+  ensures set: index >= 0 ==> ret == Undefined && elem(*l, index) == val && len(*l) == ite(index >= old(len(*l)), index + 1, old(len(*l)))
+  ensures prefix: index >= 0 ==> forall k int :: 0 <= k && k < old(len(*l)) && k != index ==> elem(*l, k) == old(elem(*l, k))
+  ensures gap: index >= 0 ==> forall k int :: old(len(*l)) <= k && k < index ==> elem(*l, k) == Nil
+
+func (*ArrayListOfValueIterator).NextValue
+  props C24 C23
+  requires l != nil && l.ArrayList != nil && l.Index >= 0
+  ensures yields: old(l.Index) < len(*l.ArrayList) ==> ret1 == Undefined && ret0 == elem(*l.ArrayList, old(l.Index)) && l.Index == old(l.Index) + 1
+  ensures stops: old(l.Index) >= len(*l.ArrayList) ==> ret0 == Undefined && ret1 != Undefined && l.Index == old(l.Index)
+  ensures list: *l.ArrayList == old(*l.ArrayList)
 @*/
